@@ -275,6 +275,16 @@ func (c *c09) attempt(cs c09Case, setup bool) error {
 	if err := c.quiesce(); err != nil {
 		return err
 	}
+	if held := c.lab.Log.HeldLocks(); len(held) > 0 {
+		// every handler has returned: this lock is held for ever
+		for id := range held {
+			c.lab.Log.ForgetLock(id)
+		}
+		c.r.Eval()
+		c.broken = true
+		c.violation("contract-lock-left-held:"+cs.Kind, "a contract lock is still held although every handler has returned; the contract is unusable from now on", cs, map[string]any{"renter_error": errText(out.err)})
+		return nil
+	}
 	post, err := c.snapshot()
 	if err != nil {
 		return inconclusive("post-snapshot: %v", err)
@@ -312,6 +322,11 @@ func (c *c09) attempt(cs c09Case, setup bool) error {
 	if debugAttempts {
 		b, _ := json.Marshal(cs)
 		fmt.Printf("attempt %s -> %s err=%v persisted=%d\n", b, outcome, out.err, persisted)
+	}
+
+	// the mutual-exclusion monitor around the Contractor's lock
+	for _, lv := range c.lab.Log.TakeLockViolations() {
+		c.violation("contract-lock-granted-while-held:"+cs.Kind, "the Contractor granted the contract lock while another RPC still held it", cs, map[string]any{"violation": lv})
 	}
 
 	// (1) always: host roots hash to the committed root, count matches size
@@ -1130,6 +1145,9 @@ func runC09(r *mon.Run, replay string) {
 	r.Floor("rpcs_succeeded_after_chain_event", 60)
 	r.Floor("renewals_with_capacity_above_filesize", 20)
 	r.Floor("multi_contract_rounds", 200)
+	r.Floor("three_actor_rounds", 40)
+	r.Floor("three_actor_contenders_refused", 80)
+	r.Floor("three_actor_listings_verified", 30)
 	r.Floor("rounds_with_two_paused_rpcs", 40)
 	start := time.Now()
 	jobs := c09Jobs(r)
@@ -1158,6 +1176,11 @@ func runC09(r *mon.Run, replay string) {
 	go func() {
 		defer wg.Done()
 		guardRun(r, "C09 G-concurrent", func() error { return c09Concurrent(r) })
+	}()
+	wg.Add(1)
+	go func() {
+		defer wg.Done()
+		guardRun(r, "C09 K-three-actors", func() error { return c09ThreeActors(r) })
 	}()
 	for w := 0; w < 3; w++ {
 		wg.Add(1)
